@@ -78,6 +78,14 @@ Theorem C01_closest_points_difference_partial : forall (A B : set3) Y P Q a b,
   exists ws, length ws = length Y /\ a = comb ws P /\ b = comb ws Q /\ vsub a b = comb ws Y.
 Proof. exact closest_points_difference. Qed.
 
+(** the duality-gap bound the loop does not test on its relative-progress exit: with
+    v = -search_direction and support points p, q, every pair of points of the two sets is at
+    least (v.(p-q))/|v| apart; the reported distance on that exit is |v| *)
+Theorem C01_gap_bound_partial : forall (A B : set3) d p q a b,
+  is_support A d p -> is_support B (vneg d) q -> A a -> B b ->
+  (- dot d (vsub p q) <= norm d * norm (vsub a b))%R.
+Proof. exact support_lower_bound. Qed.
+
 Example C01_loop_nonvacuous : srows (fun _ => True) (fun _ => True) (@dstate0 R ROps) /\ dinv (@dstate0 R ROps).
 Proof. split; [apply srows0 | apply dinv0]. Qed.
 
@@ -91,3 +99,4 @@ Print Assumptions C01_step_invariant.
 Print Assumptions C01_clipped_exit_sound.
 Print Assumptions C01_closest_points_difference_partial.
 Print Assumptions C01_loop_nonvacuous.
+Print Assumptions C01_gap_bound_partial.
